@@ -236,7 +236,9 @@ func backtraceCopyRule(p *Prog, r *Report, R string) {
 	}
 }
 
-func itoa(i int) string { return strings.TrimSpace(strings.Replace(" "+string(rune('0'+i)), " ", "", 1)) }
+func itoa(i int) string {
+	return strings.TrimSpace(strings.Replace(" "+string(rune('0'+i)), " ", "", 1))
+}
 
 // loadBeforeStoresPath: v is (a field of) a load of `path` that executes before any store
 // to path in fn.
@@ -360,7 +362,6 @@ func sameEntryPair(hdrVal, pipeVal ssa.Value) bool {
 	return false
 }
 
-
 // privateCopyOfHeader: the stored value is a fresh slice holding the bytes of some message's
 // Header: `append([]byte{}, M.Header...)`, or `make([]byte, len(M.Header))` filled by
 // `copy(that, M.Header)` before it is stored.
@@ -384,7 +385,6 @@ func privateCopyOfHeader(f *F, st *Ev) bool {
 	}
 	return false
 }
-
 
 // topBitTest: cmp is a comparison over the first byte of a 4-byte word of a message buffer
 // (X.Body[0], X.Header[len-4]) or over the whole word (BigEndian.Uint32 of it).  It is
